@@ -1,37 +1,34 @@
-// replay for unit cbor_strref: builds a document that brings the real encoder to the counterexample state
-// (text_count registered text strings, bytes_count registered byte strings), then writes a string of the counterexample
-// length several times, encodes with pack_strings and decodes with the real decoder; the round trip must be the identity.
+// replay for unit cbor_strref: documents that bring the real encoder's running stringref index to the threshold boundaries (24, 256) through different
+// mixtures of text strings, byte strings, big numbers and typed arrays, followed by short strings around the minimum lengths and repeated strings;
+// encoded with pack_strings and decoded with the real decoder, the round trip must be the identity.  The counterexample's index and length are added.
 #include <jsoncons/json.hpp>
 #include <jsoncons_ext/cbor/cbor.hpp>
 #include "replay_util.hpp"
 using namespace jsoncons;
+static std::string mk(size_t i, size_t l, char base) { std::string s(l, base); std::string d = std::to_string(i); for (size_t k = 0; k < d.size() && k < l; ++k) s[l - 1 - k] = d[d.size() - 1 - k]; return s; }
+static json bs(const std::string& s) { return json(byte_string_arg, byte_string_view((const uint8_t*)s.data(), s.size())); }
 int main(int argc, char** argv)
 {
     if (argc < 3) return 2;
-    std::string h = argv[1];
     vx_replay_inputs in; if (!in.load(argv[2])) return 2;
-    size_t tc = in.u64("vx_text_count"), bc = in.u64("vx_bytes_count"), len = in.u64("vx_len", in.u64("return_value_nondet_size", 3));
-    if (tc > 100000 || bc > 100000 || len > 100000) VX_NOREPRO("counterexample not minimised (" << tc << " text, " << bc << " byte strings, length " << len << ")");
-    json doc(json_array_arg);
-    auto mk = [](size_t i, size_t l, char base) { std::string s(l, base); std::string d = std::to_string(i); for (size_t k = 0; k < d.size() && k < l; ++k) s[l - 1 - k] = d[d.size() - 1 - k]; return s; };
-    for (size_t i = 0; i < bc; ++i) { std::string s = mk(i, 12, 'b'); doc.push_back(json(byte_string_arg, byte_string_view((const uint8_t*)s.data(), s.size()))); }
-    for (size_t i = 0; i < tc; ++i) doc.push_back(mk(i, 12, 't'));
-    bool bytes = (h != "write_string");
-    for (int rep = 0; rep < 3; ++rep) {
-        for (int v = 0; v < 2; ++v) {
-            std::string s = mk(v, len, v ? 'q' : 'p');
-            if (bytes) doc.push_back(json(byte_string_arg, byte_string_view((const uint8_t*)s.data(), s.size()))); else doc.push_back(s);
+    std::vector<size_t> targets = {0, 1, 22, 23, 24, 25, 254, 255, 256, 257};
+    size_t cx = in.u64("vx_enc.next_stringref_", 0); if (cx <= 70000) targets.push_back(cx);
+    std::vector<size_t> lens = {2, 3, 4, 5, 6}; size_t cl = in.u64("return_value_nondet_size", 0); if (cl >= 1 && cl <= 1000) lens.push_back(cl);
+    int bad = 0, total = 0; std::string first;
+    for (size_t target : targets) for (int mix = 0; mix < 4; ++mix) for (size_t len : lens) for (int kind = 0; kind < 2; ++kind) {
+        json doc(json_array_arg);
+        // bring the index to `target`: mix 0 text only, 1 byte strings only, 2 alternating, 3 with big numbers in between (each long string or bignum takes one index)
+        for (size_t i = 0; i < target; ++i) {
+            int w = mix == 0 ? 0 : mix == 1 ? 1 : mix == 2 ? (int)(i % 2) : (int)(i % 3);
+            if (w == 0) doc.push_back(mk(i, 12, 't')); else if (w == 1) doc.push_back(bs(mk(i, 12, 'b'))); else doc.push_back(json("1" + mk(i, 30, '0'), semantic_tag::bigint));
         }
+        for (int rep = 0; rep < 3; ++rep) for (int v = 0; v < 2; ++v) { std::string s = mk(v, len, v ? 'q' : 'p'); if (kind) doc.push_back(bs(s)); else doc.push_back(s); }
+        doc.push_back("tail-string-0001"); doc.push_back("tail-string-0001"); doc.push_back(bs("tail-bytes-0002")); doc.push_back(bs("tail-bytes-0002")); doc.push_back(mk(0, 12, 't'));
+        ++total;
+        try { std::vector<uint8_t> out; cbor::encode_cbor(doc, out, cbor::cbor_options{}.pack_strings(true)); json back = cbor::decode_cbor<json>(out);
+              if (back != doc) { if (!bad) first = "index " + std::to_string(target) + ", mixture " + std::to_string(mix) + ", string length " + std::to_string(len) + (kind ? " (byte strings)" : " (text)"); ++bad; } }
+        catch (const std::exception& e) { if (!bad) first = std::string(e.what()) + " at index " + std::to_string(target) + ", mixture " + std::to_string(mix) + ", length " + std::to_string(len); ++bad; }
     }
-    doc.push_back("tail-string-0001"); doc.push_back("tail-string-0001"); doc.push_back("tail-string-0002"); doc.push_back("tail-string-0002");
-    std::vector<uint8_t> out;
-    auto opts = cbor::cbor_options{}.pack_strings(true);
-    try {
-        cbor::encode_cbor(doc, out, opts);
-        json back = cbor::decode_cbor<json>(out);
-        if (back != doc) VX_REPRO("pack_strings round trip differs with " << tc << " text + " << bc << " byte strings registered and a string of length " << len);
-    } catch (const std::exception& e) {
-        VX_REPRO("pack_strings round trip fails (" << e.what() << ") with " << tc << " text + " << bc << " byte strings registered and a string of length " << len);
-    }
-    VX_NOREPRO("round trip ok");
+    if (bad) VX_REPRO(bad << " of " << total << " pack_strings round trips differ, first: " << first);
+    VX_NOREPRO("all " << total << " pack_strings round trips are the identity");
 }
